@@ -70,6 +70,11 @@ def is_const(s, v=None) -> bool:
     )
 
 
+def is_none(s) -> bool:
+    """the literal None (is_const(x, None) means "any literal")"""
+    return isinstance(s, S) and s.op == "const" and s.args[0] is None
+
+
 def canon(s):
     """Same DAG with call-site tags removed (structural comparison across functions)."""
     if not isinstance(s, S):
